@@ -125,6 +125,8 @@ def run(tier):
             ("dfs2d", {"progs": PROGS["P2d"], "preempt": 2, "max_runs": 3000, "spur": 1, "eintr": 0, "graph": "2d"}),
             ("dfs3", {"progs": PROGS["P3"], "preempt": 2, "max_runs": 1500, "spur": 0, "eintr": 0}),
             ("cov4", {"mode": "cover", "progs": [LAU + ["D"] + LAU, LAU + TAU, TAU + LAU + ["D"], ["D"] + LAU], "runs": 300, "spur": 1, "eintr": 1}),
+            ("hold3", {"mode": "hold", "progs": [LAU + LAU, LAU, TAU + LAU], "spur": 0, "eintr": 0, "max_steps": 200}),
+            ("hold2", {"mode": "hold", "progs": [LAU, LAU + ["D"]], "spur": 0, "eintr": 0, "max_steps": 200}),
             ("rnd4", {"progs": [LAU + LAU, LAU + TAU, TAU + LAU, LAU], "runs": 150, "spur": 1, "eintr": 1}),
         ]
     else:
@@ -142,10 +144,12 @@ def run(tier):
             ("dfs3b", {"progs": PROGS["P3b"], "preempt": 2, "max_runs": 5000, "spur": 0, "eintr": 0}),
             ("dfs4", {"progs": PROGS["P4t"], "preempt": 2, "max_runs": 5000, "spur": 0, "eintr": 0}),
             ("cov4", {"mode": "cover", "progs": [LAU + ["D"] + LAU, LAU + TAU, TAU + LAU + ["D"], ["D"] + LAU + LAU], "runs": 3000, "spur": 1, "eintr": 1}),
+            ("hold3", {"mode": "hold", "progs": [LAU + LAU, LAU, TAU + LAU], "spur": 0, "eintr": 0, "max_steps": 200}),
+            ("hold2", {"mode": "hold", "progs": [LAU, LAU + ["D"]], "spur": 0, "eintr": 0, "max_steps": 200}),
             ("rnd4", {"progs": [LAU + LAU, LAU + TAU, TAU + LAU, LAU + LAU], "runs": 3000, "spur": 1, "eintr": 1}),
         ]
     stress = {"threads": 4, "sections": 1500} if tier == "quick" else {"threads": 8, "sections": 10000}
-    rel = [(t, sp) for t, sp in specs if t in ("dfs2", "dfs3", "cov4")]
+    rel = [(t, sp) for t, sp in specs if t in ("dfs2", "dfs3", "cov4", "hold3")]
     return LC.run(tier, tours, configs, configs_if_differs, specs, stress=stress, release_specs=rel,
                   probe_scenarios=["m_before", "m_after"])
 
